@@ -151,7 +151,7 @@ fn valid_command_line() -> BoxedStrategy<Vec<u8>> {
         "@owner", "@owner root", "@group wheel", "@group", "@comment", "@comment  a comment ", "@ignore",
         "@ignore ", "@name pkg-1.0", "@pkgdir share/foo", "@dirrm share/foo", "@display MESSAGE",
         "@pkgdep foo>=1", "@blddep bar-[0-9]*", "@pkgcfl baz<2", "@option preserve", "@cwd \t /opt",
-        "@comment \u{e9}", "@name \u{1f496}",
+        "@comment \u{e9}", "@name \u{1f496}", "@cwd .", "@src .", "@cd ./", "@cwd ..", "@pkgdir .", "@dirrm .",
     ])
     .prop_map(|s| s.as_bytes().to_vec())
     .boxed()
@@ -162,6 +162,8 @@ fn unknown_command_line() -> BoxedStrategy<Vec<u8>> {
         "@", "@foo", "@CWD /x", "@cwd\t/x", "@cwdx /y", "@ cwd /x", "@@cwd /", "@option", "@option  other",
         "@option preserved", "@option preserve ", "@option preserve\r", "@option preserve=no", "@option preserv", "@option PRESERVE", "@option preserve preserve",
         "@ignore x", "@name", "@cwd", "@exec ", "@pkgdep  ", "@dirrm",
+        // directives of pkg_install that this library does not support
+        "@mtree", "@mtree etc/mtree/BSD.x11.dist", "@srcdir /usr/src", "@end", "@bin x", "@man man/man1/x.1", "@info info/x.info", "@dirrmtry x", "@sample x", "@shell bin/zsh",
     ])
     .prop_map(|s| s.as_bytes().to_vec())
     .boxed()
